@@ -5,7 +5,11 @@ Import ListNotations.
 Open Scope N_scope.
 
 (* EncryptionKeyOrGenerate on a raw key string: 0 / decode error / length error *)
-Definition entry_cfkey (k : bytes) : Z := cf_code (cf_key_check k).
+Definition entry_cfkey (v : cf_variant) (k : bytes) : Z := cf_code (cf_key_check v k).
+
+(* the three variant flags of lib/code_flags.json: enc_key_strict wait_nonneg ingress_pattern_strict *)
+Definition mk_cf_variant_of (key_strict wait_nonneg ingress_strict : bool) : cf_variant :=
+  mk_cf_variant key_strict wait_nonneg ingress_strict.
 
 Definition cf_nth_s (l : list (option bytes)) (i : nat) : option bytes := nth i l None.
 Definition cf_nth_t (l : list (cf_tv Z)) (i : nat) : cf_tv Z := nth i l CfAbsent.
@@ -37,19 +41,19 @@ Definition mk_cf_raw_of (ss : list (option bytes)) (ts : list (cf_tv Z)) (oj ore
     oj ored ofetch.
 
 (* the whole start-up: outcome class of the binary *)
-Definition entry_cfrun (ss : list (option bytes)) (ts : list (cf_tv Z)) (oj ored ofetch : list bytes)
+Definition entry_cfrun (v : cf_variant) (ss : list (option bytes)) (ts : list (cf_tv Z)) (oj ored ofetch : list bytes)
     (djson dend djwks : bool) (algs acrs locs : list bytes) : Z :=
-  cf_run (mk_cf_raw_of ss ts oj ored ofetch) (mk_cf_disc djson algs acrs locs dend djwks).
+  cf_run v (mk_cf_raw_of ss ts oj ored ofetch) (mk_cf_disc djson algs acrs locs dend djwks).
 
 (* Config.Validate, ingress.ParseIngresses and the route patterns on an already resolved Config struct:
    [samesite; ingress (comma joined); alg; redis.address; redis.uri; sso.mode; cookie name; domain; default redirect;
     server url; upstream-ip]  and  [secure; sso.enabled; upstream-port; graceful; wait-before] *)
-Definition entry_cfval (s : list bytes) (z : list Z) : list Z :=
+Definition entry_cfval (v : cf_variant) (s : list bytes) (z : list Z) : list Z :=
   let g i := nth i s [] in
   let h i := nth i z 0%Z in
   let c := mk_cf_cfg CfOpenID [] (cf_split_list (g 1%nat)) (g 0%nat) (negb (h 0%nat =? 0)%Z)
              [] [] [] [] (g 2%nat) [] [] (g 3%nat) (g 4%nat) (negb (h 1%nat =? 0)%Z) (g 5%nat) (g 6%nat) (g 7%nat)
              (g 8%nat) (g 9%nat) (g 10%nat) (h 2%nat) (h 3%nat) (h 4%nat) [] [] [] in
   (* router.New can only be run on an ingress list that ParseIngresses accepted *)
-  [cf_code (cf_validate c); cf_code (cf_parse_ingresses c);
-   match cf_parse_ingresses c with None => cf_code (cf_router c) | Some _ => 0%Z end].
+  [cf_code (cf_validate v c); cf_code (cf_parse_ingresses v c);
+   match cf_parse_ingresses v c with None => cf_code (cf_router c) | Some _ => 0%Z end].
